@@ -1,8 +1,198 @@
-//! C02 — see /verif/DESIGN.md §3.
-use vf_core::{Args, Ctx};
+//! C02 — skrifa and the IFT client are total on hostile fonts and arguments.
+//! See /verif/DESIGN.md §3 "C02" (and "C20", which re-runs `workload` with
+//! `PanicPolicy::StrictOnly` + `panics_only`).
+//!
+//! Oracle: the panic monitor + the cpu-time progress monitor of vf-core around
+//! every public operation; the only acceptable results are `Ok`/`Err`/`None`.
+//! Every library call runs inside `Ctx::run_case`, every caught panic is judged
+//! through `Ctx::judge_panic` only.
 
-pub const REPLAY: Option<fn(&mut Ctx, &Args, &serde_json::Value, Option<&[u8]>)> = None;
+pub mod cffgen;
+pub mod drive;
+pub mod ift;
+pub mod mutants;
+pub mod ttgen;
 
-pub fn run(ctx: &mut Ctx, _args: &Args) {
-    ctx.rule = "stub".into();
+use drive::{exec_case, groups_for, has_table, FontCase, GroupSpec};
+use serde_json::{json, Value};
+use vf_core::{Args, CorpusFont, Ctx, PanicPolicy, Rng};
+
+pub const REPLAY: Option<fn(&mut Ctx, &Args, &Value, Option<&[u8]>)> = Some(replay);
+
+pub fn run(ctx: &mut Ctx, args: &Args) {
+    ctx.policy = PanicPolicy::Totality;
+    workload(ctx, args)
+}
+
+/// Work-item counter shared by all sections so that items are spread over
+/// the shards deterministically.
+pub struct Items {
+    next: usize,
+}
+impl Items {
+    pub fn mine(&mut self, ctx: &Ctx) -> bool {
+        let i = self.next;
+        self.next += 1;
+        ctx.mine(i)
+    }
+}
+
+pub fn corpus() -> Vec<CorpusFont> {
+    let mut v = vf_core::corpus_fonts();
+    v.sort_by(|a, b| a.name.cmp(&b.name).then(a.data.len().cmp(&b.data.len())));
+    v.dedup_by(|a, b| a.name == b.name && a.data == b.data);
+    v
+}
+
+pub fn workload(ctx: &mut Ctx, args: &Args) {
+    ctx.rule = "a (font bytes, mutation, configuration group) case in which the font opened and at least one public \
+                operation returned Ok/Some or a domain error/None (not merely 'font failed to open'); for the IFT client a \
+                (font, subset definition, patch map, patch bytes, decoder) tuple for which selection or application returned a value. \
+                digest = font id + mutation + configuration group + configuration seed"
+        .into();
+    ctx.level = "exploration".into();
+    ctx.assumptions = vec![
+        "totality is decided per executed case only: panic monitor (catch_unwind + hook), cpu-time bound max(2 s, 50 us x input bytes) per case, subprocess shards for aborts/stack overflows".into(),
+        "skrifa at this revision has no bitmap-strike API (no MetadataProvider::bitmap_strikes); bitmap tables are only mutated, not queried".into(),
+        "an uncapped (> 16 MiB) max_uncompressed_length request to the C brotli decoder is noted (counter ift_decode_requests_over_16MiB_not_executed), not executed".into(),
+        "under the strict profile overflow/debug-assert panics are counted (other_property_panic_sites) and belong to C20".into(),
+    ];
+    let fonts = corpus();
+    ctx.count("corpus_fonts", if ctx.shard.0 == 0 { fonts.len() as u64 } else { 0 });
+    let mut items = Items { next: 0 };
+    let only: Option<String> = args.extra.iter().find_map(|a| a.strip_prefix("--only=").map(|s| s.to_string()));
+    let want = |s: &str| only.as_deref().map(|o| o.split(',').any(|x| x == s)).unwrap_or(true);
+
+    if want("corpus") {
+        sec_corpus(ctx, &fonts, &mut items);
+    }
+    if want("misuse") {
+        sec_misuse(ctx, &fonts, &mut items);
+    }
+    if want("mutants") {
+        mutants::sec_random(ctx, &fonts, &mut items);
+        mutants::sec_sweeps(ctx, &fonts, &mut items);
+        mutants::sec_truncate(ctx, &fonts, &mut items);
+    }
+    if want("extreme") {
+        mutants::sec_extreme(ctx, &fonts, &mut items);
+    }
+    if want("ttprog") {
+        ttgen::sec_programs(ctx, &mut items);
+    }
+    if want("cff") {
+        cffgen::sec_cff(ctx, &mut items);
+    }
+    if want("ift") {
+        ift::sec_ift(ctx, &mut items);
+    }
+    ctx.extra.insert("profile_note".into(), json!("strict = overflow checks + debug assertions (fuzzing configuration); rel = shipping semantics"));
+}
+
+/// Run a cheap but broad subset of the per-font configuration product on ONE
+/// font byte string (used by C20 for its own mutants): open, metadata, metrics,
+/// charmap, unhinted outlines, colour paint and every hinting engine x target,
+/// with a few sizes / locations / glyph ids. Deterministic in (label, bytes).
+/// Every library call runs inside `ctx.run_case`; every panic is judged via
+/// `ctx.judge_panic` (so `ctx.policy` decides).
+pub fn exercise_font(ctx: &mut Ctx, label: &str, bytes: &[u8]) {
+    let cfg = vf_core::fnv64(label.as_bytes()) ^ vf_core::fnv64(bytes).rotate_left(21);
+    let fc = FontCase { name: label, mutation: "", category: "exercise", bytes };
+    let o = exec_case(ctx, &fc, &GroupSpec::new("open", 0, cfg), None);
+    if !o.opened {
+        ctx.count("fonts_failed_to_open:exercise", 1);
+        return;
+    }
+    ctx.count("fonts_driven:exercise", 1);
+    let mut groups: Vec<String> = ["meta", "metrics", "charmap", "unhinted"].iter().map(|s| s.to_string()).collect();
+    if has_table(bytes, b"COLR") {
+        groups.push("color".into());
+    }
+    for e in 0..4 {
+        groups.push(format!("hintall:{}", e));
+    }
+    for g in groups {
+        exec_case(ctx, &fc, &GroupSpec::new(g, 0, cfg), None);
+    }
+}
+
+/// Full configuration product on every pristine corpus font; one work item per
+/// (font, group).
+fn sec_corpus(ctx: &mut Ctx, fonts: &[CorpusFont], items: &mut Items) {
+    for (fi, f) in fonts.iter().enumerate() {
+        let cfg_seed = ctx.seed ^ (fi as u64) << 20;
+        let mut rng = Rng::derive(ctx.seed, "corpus-groups", fi as u64);
+        let specs = groups_for(1, cfg_seed, &mut rng, has_table(&f.data, b"COLR"));
+        for spec in specs {
+            if !items.mine(ctx) {
+                continue;
+            }
+            let fc = FontCase { name: &f.name, mutation: "", category: "corpus", bytes: &f.data };
+            exec_case(ctx, &fc, &spec, None);
+        }
+    }
+}
+
+/// API misuse across fonts: hinting instance / glyph styles of font A with
+/// glyphs of font B, reconfigure across fonts.
+fn sec_misuse(ctx: &mut Ctx, fonts: &[CorpusFont], items: &mut Items) {
+    // only fonts that have outlines are interesting partners
+    let with_outlines: Vec<&CorpusFont> = fonts
+        .iter()
+        .filter(|f| has_table(&f.data, b"glyf") || has_table(&f.data, b"CFF ") || has_table(&f.data, b"CFF2"))
+        .collect();
+    let stride = ctx.tier.pick(3usize, 1usize);
+    let mut k = 0usize;
+    for (ai, a) in with_outlines.iter().enumerate() {
+        for (bi, b) in with_outlines.iter().enumerate() {
+            if ai == bi {
+                continue;
+            }
+            let mut rng = Rng::derive(ctx.seed, "misuse", (ai * 1000 + bi) as u64);
+            for (fam, e) in [("misuse", 0usize), ("misuse", 1), ("misuse", 3), ("reconf", 0), ("reconf", 1), ("reconf", 3), ("styles", 2)] {
+                let t = rng.usize(drive::N_TARGETS);
+                let cfg_seed = rng.u64();
+                for index in 0..3u32 {
+                    k += 1;
+                    if !items.mine(ctx) {
+                        continue;
+                    }
+                    // quick tier: a deterministic third of the (pair, config, glyph) triples
+                    if (k + ai + bi) % stride != 0 {
+                        continue;
+                    }
+                    let mut spec = GroupSpec::new(format!("{}:{}:{}", fam, e, t), 0, cfg_seed);
+                    spec.partner = Some(a.name.clone());
+                    spec.index = index;
+                    let fc = FontCase { name: &b.name, mutation: &format!("instance-of:{}", a.name), category: "misuse", bytes: &b.data };
+                    exec_case(ctx, &fc, &spec, Some(&a.data));
+                }
+            }
+        }
+    }
+}
+
+/// Re-run one recorded case on the recorded bytes.
+fn replay(ctx: &mut Ctx, _args: &Args, rec: &Value, input: Option<&[u8]>) {
+    ctx.policy = PanicPolicy::Totality;
+    ctx.rule = "replay of one recorded case".into();
+    let detail = &rec["detail"];
+    let case = if detail["case"].is_object() { &detail["case"] } else { detail };
+    if let Some(i) = case["ift_item"].as_u64() {
+        ift::run_item(ctx, i as usize, case["ift_seed"].as_str().and_then(|s| s.parse().ok()).unwrap_or(ctx.seed));
+        return;
+    }
+    let (Some(spec), Some(bytes)) = (GroupSpec::from_json(&case["spec"]), input) else {
+        ctx.inconclusive("replay record has no case spec / input bytes; nothing re-run");
+        return;
+    };
+    let partner: Option<Vec<u8>> = spec.partner.as_ref().and_then(|n| corpus().into_iter().find(|f| &f.name == n).map(|f| f.data.to_vec()));
+    let name = case["font"].as_str().unwrap_or("replay").to_string();
+    let mutation = case["mutation"].as_str().unwrap_or("").to_string();
+    let fc = FontCase { name: &name, mutation: &mutation, category: "replay", bytes };
+    let o = exec_case(ctx, &fc, &spec, partner.as_deref());
+    ctx.extra.insert("replay".into(), json!({"panicked": o.panicked, "opened": o.opened, "answered": o.answered, "spec": spec.to_json()}));
+    // a replay that answers is a non-trivial evaluation in its own right
+    ctx.nontrivial(1);
+    ctx.nontrivial(2);
 }
